@@ -23,8 +23,9 @@ RULES = {
     "R3": "smoothers return the input or a sub-collection; Plate.merge writes only plate labels",
     "R4": "generators: complementary partition masks, every part returned on every path",
     "R5": "template methods split by subset_unobserved/subset_observed and recombine new.combine(observed.to_screen())",
+    "R6": "the view algebra the template methods rely on: subset_(un)observed are the exact row views, combine / concat are unions over one parent, subset composes selections",
 }
-MIN = {"R1": 10, "R2": 8, "R3": 8, "R4": 3, "R5": 6}
+MIN = {"R1": 10, "R2": 8, "R3": 8, "R4": 3, "R5": 6, "R6": 8}
 TRUSTED = ["numpy boolean/fancy indexing keeps row order", "np.concatenate keeps operand order",
            "rng.choice(replace=False) returns distinct elements of its first argument"]
 TECHNIQUE = "def-use provenance of constructor arguments, selector pairing, guard-before-effect on the CFG"
@@ -729,7 +730,14 @@ def _rule_2(ctx):
     return (lambda ctx: r2_holdout(ctx, "retrospective.create_random_holdout", False))(ctx)
 
 
-RULE_FUNCS = [r1, _rule_1, _rule_2, r3, r4, r5]
+def r6(ctx):
+    """generate_plates / smooth_plates split by subset_unobserved() / subset_observed() and recombine with combine(): experiments are
+    conserved only if these are the views of exactly the (un)observed rows and combine is the union over one parent (C14.R3 run here)"""
+    from . import C14
+    ctx.borrow(C14.r3, "R6")
+
+
+RULE_FUNCS = [r1, _rule_1, _rule_2, r3, r4, r5, r6]
 
 
 def _rep(a, b, count=1):
